@@ -210,7 +210,8 @@ func (p *C08) Gen(seed uint64, i int, tier string) *scen.Scenario {
 			op := scen.Op{Op: "log", L: r.Range(1, nLoggers), Entry: scen.Pick(r, []string{name, name + "Context", "LogAttrs"}), Lvl: sev, Tok: tok(tk)}
 			op.Msg = "m" + op.Tok
 			if r.Chance(1, 6) {
-				op.Msg = "first " + op.Tok + "\nsecond line\nthird"
+				// every line names the call: a continuation line that turns up in another call's payload shows
+				op.Msg = "first " + op.Tok + "\nsecond " + op.Tok + scen.Pick(r, []string{"\nthird " + op.Tok, "\nthird " + op.Tok + "\n", ""})
 			}
 			for n := r.Intn(5); n > 0; n-- {
 				switch c := r.Intn(10); {
@@ -538,6 +539,9 @@ func (p *C08) Check(sc *scen.Scenario, run *orch.Run, env *orch.Env) []orch.Viol
 			delivered[e.W] = map[string]int{}
 		}
 		delivered[e.W][tk]++
+		if have, want := strings.Count(text, tk), strings.Count(c.op.Msg, tk); have != want {
+			add("C08.corrupt", "message-lines", "record of call %s: the message names the call on %d line(s), the payload %d time(s): %.300q", tk, want, have, text)
+		}
 		if len(e.P) == 0 || e.P[len(e.P)-1] != '\n' {
 			add("C08.torn", "no-newline", "payload of %s does not end with a newline: %.200q", tk, text)
 		}
